@@ -42,7 +42,7 @@ func vrtIsEOF(err error) bool { return err == io.EOF }
 // H15_pair: consumer operation || producer operation (|| Close).
 func H15_pair() {
 	bf, avail, nearWrap := vrtRing15()
-	cop := vrtChoice("cop", 4)  // Read, ReadPeek, ReadWait(2), none
+	cop := vrtChoice("cop", 4)  // Read, ReadPeek+ReadCommit, ReadWait(2)+ReadCommit, none
 	pop := vrtChoice("pop", 3)  // Write(2 bytes), WriteWait(2)+WriteCommit(2), none
 	closes := vrtChoice("closes", 3)
 	var cerr, perr error
@@ -53,9 +53,18 @@ func H15_pair() {
 			case 0:
 				_, cerr = bf.Read(make([]byte, 2))
 			case 1:
-				_, cerr = bf.ReadPeek(2)
+				var b []byte
+				b, cerr = bf.ReadPeek(2)
+				if cerr == nil || cerr == ErrBufferInsufficientData {
+					if _, e := bf.ReadCommit(len(b)); e != nil {
+						cerr = e
+					}
+				}
 			case 2:
 				_, cerr = bf.ReadWait(2)
+				if cerr == nil {
+					_, cerr = bf.ReadCommit(2)
+				}
 			}
 			cdone = true
 		})
@@ -83,7 +92,8 @@ func H15_pair() {
 		produced = 2
 	}
 	consumerSatisfiable := (cop == 2 && avail+produced >= 2) || (cop < 2 && avail+produced >= 1) || cop == 3
-	producerSatisfiable := pop == 2 || avail+2 <= bf.size || (cop == 0 && avail >= 2 && !nearWrap) // (a Read of 2 frees the space, unless it is cut short at the wrap point)
+	// (a Read of 2 frees the space, unless it is cut short at the wrap point; a committed peek / wait of 2 frees it too)
+	producerSatisfiable := pop == 2 || avail+2 <= bf.size || (cop == 0 && avail >= 2 && !nearWrap) || ((cop == 1 || cop == 2) && avail >= 2)
 	if closes == 0 && !(consumerSatisfiable && producerSatisfiable) {
 		return // somebody legitimately waits for ever: not a scenario of the property
 	}
